@@ -71,6 +71,8 @@ type Replica struct {
 	Up bool
 	// extraApps are harness probe apps registered on every (re)start.
 	extraApps func() []cmtapi.Application
+	// crashPoint, when set, is called at the CometBFT-level crash points of Apply (chain-level C07).
+	crashPoint func(name string)
 }
 
 // simMempool is the simulator-owned mempool: block contents are scripted.
@@ -124,6 +126,9 @@ type interposer struct {
 	// lastDeliver is the response of the most recent DeliverTx call.
 	lastDeliver abcitypes.ResponseDeliverTx
 	lastTx      []byte
+	// crash, when set, is called immediately after the mux returned from an ABCI call and before
+	// anything else runs (chain-level C07: the instant at which a crash image may be taken).
+	crash func(call string)
 }
 
 func (i *interposer) wrap(call string, f func()) {
@@ -134,6 +139,9 @@ func (i *interposer) wrap(call string, f func()) {
 	if pv != nil {
 		i.lastPanic, i.lastStack = pv, stack
 		panic(pv)
+	}
+	if i.crash != nil {
+		i.crash(call)
 	}
 	if i.after != nil {
 		i.after(call)
